@@ -369,7 +369,10 @@ def run_corpus(prop):
 def check(prop, tier, seed):
     from sim import known, minimise
     t0 = time.time()
-    b = BUDGET[tier]
+    b = dict(BUDGET[tier])
+    if os.environ.get('VERIF_WALL'):
+        # developer knob: shorter or longer batch, same everything else
+        b['wall'] = float(os.environ['VERIF_WALL'])
     print('check %s tier=%s seed=%d workers=%d PYTHONHASHSEED=%s repo=%s' %
           (prop, tier, seed, WORKERS, os.environ.get('PYTHONHASHSEED'),
            os.environ.get('VERIF_REPO', '/repo')))
